@@ -150,4 +150,13 @@ theorem rwn_filter_from {j : Journal} {f : Rec → Bool} (hs : Sorted j) (hw : W
       · rw [Nat.min_eq_left hkc]
       · rw [Nat.min_eq_right (by omega), List.drop_eq_nil_of_le (by omega), List.drop_eq_nil_of_le (by omega)]
 
+/-- … and BEFORE any position (the backward walks) -/
+theorem rwn_filter_upto {j : Journal} {f : Rec → Bool} (hs : Sorted j) (hw : WinSoundF j f) (p : Pos) :
+    ((wflat j).take (wflatIdx j p)).filter f = ((flat j).take (flatIdx j p)).filter f := by
+  have h1 := rwn_filter_wflat hw
+  have h2 := rwn_filter_from hs hw p
+  rw [← List.take_append_drop (wflatIdx j p) (wflat j), ← List.take_append_drop (flatIdx j p) (flat j),
+    List.filter_append, List.filter_append, h2] at h1
+  exact List.append_cancel_right h1
+
 end Logrange.Rd
